@@ -109,6 +109,12 @@ type Term struct {
 	name  string
 	ctree int8 // 0 unknown, 1 const tree, 2 not
 	nleaf int
+	mtree int8  // 0 unknown, 1 mostly-constant ite tree, 2 not
+	mleaf int16 // leaves of the ite tree (capped)
+	mcons int16 // constant leaves
+	lzb   int16 // cached leading zero bits + 1 (0 = unknown)
+	bst   int8  // cached bounds state: 0 unknown, 1 ok, 2 none
+	bnd   ubounds
 }
 
 func (t *Term) IsConst() bool { return t.op == OpConst }
@@ -129,6 +135,17 @@ func NewTB() *TB {
 	tb.True = tb.mk(&Term{op: OpConst, sort: BoolSort, val: 1})
 	tb.False = tb.mk(&Term{op: OpConst, sort: BoolSort, val: 0})
 	return tb
+}
+
+// lookup finds an existing binary term without creating it.
+func (tb *TB) lookup(op Op, a, b *Term) (*Term, bool) {
+	s := a.sort
+	if op == OpEq || (op >= OpBvUlt && op <= OpBvSle) {
+		s = BoolSort
+	}
+	k := fmt.Sprintf("%d|%d|%d|%d|%d|%d|%s|%d|%d", op, s.K, s.W, 0, 0, 0, "", a.id, b.id)
+	t, ok := tb.tab[k]
+	return t, ok
 }
 
 func (tb *TB) mk(t *Term) *Term {
@@ -388,6 +405,19 @@ func (tb *TB) Ite(c, a, b *Term) *Term {
 			return tb.And(c, a)
 		}
 	}
+	// ite(c, ite(d, x, y), y) => ite(c and d, x, y): keeps guarded updates linear
+	if a.op == OpIte && a.args[2] == b {
+		return tb.Ite(tb.And(c, a.args[0]), a.args[1], b)
+	}
+	if a.op == OpIte && a.args[1] == b {
+		return tb.Ite(tb.And(c, tb.Not(a.args[0])), a.args[2], b)
+	}
+	if b.op == OpIte && b.args[2] == a {
+		return tb.Ite(tb.And(tb.Not(c), b.args[0]), b.args[1], a)
+	}
+	if b.op == OpIte && b.args[1] == a {
+		return tb.Ite(tb.And(tb.Not(c), tb.Not(b.args[0])), b.args[2], a)
+	}
 	// ite(c, x, ite(c, y, z)) => ite(c, x, z)
 	if b.op == OpIte && b.args[0] == c {
 		return tb.Ite(c, a, b.args[2])
@@ -423,6 +453,80 @@ func (tb *TB) isCTree(t *Term) bool {
 	return r
 }
 
+// treeStats counts the leaves (non-ite subterms) of the ite tree rooted at t,
+// capped at 33.
+func (tb *TB) treeStats(t *Term) (int, int) {
+	if t.mtree != 0 {
+		return int(t.mleaf), int(t.mcons)
+	}
+	var n, c int
+	if t.op != OpIte {
+		n = 1
+		if t.op == OpConst {
+			c = 1
+		}
+	} else {
+		n1, c1 := tb.treeStats(t.args[1])
+		n2, c2 := tb.treeStats(t.args[2])
+		n, c = n1+n2, c1+c2
+		if n > 33 {
+			n = 33
+		}
+	}
+	t.mleaf, t.mcons = int16(n), int16(c)
+	if t.op == OpIte && n <= 32 && c*2 >= n {
+		t.mtree = 1
+	} else {
+		t.mtree = 2
+	}
+	return n, c
+}
+
+// isMTree: an ite tree with at most 32 leaves of which at least half are constants.
+func (tb *TB) isMTree(t *Term) bool {
+	if t.op != OpIte {
+		return false
+	}
+	tb.treeStats(t)
+	return t.mtree == 1
+}
+
+func (tb *TB) mapTree(t *Term, f func(*Term) *Term) *Term {
+	if t.op != OpIte {
+		return f(t)
+	}
+	return tb.Ite(t.args[0], tb.mapTree(t.args[1], f), tb.mapTree(t.args[2], f))
+}
+
+// specLift pushes f into the leaves of the ite tree a when that turns at
+// least half of the leaves into constants (e.g. (id+k) - id).
+func (tb *TB) specLift(a *Term, f func(*Term) *Term) *Term {
+	if a.op != OpIte {
+		return nil
+	}
+	n, _ := tb.treeStats(a)
+	if n > 32 {
+		return nil
+	}
+	nconst := 0
+	var rec func(t *Term) *Term
+	rec = func(t *Term) *Term {
+		if t.op != OpIte {
+			r := f(t)
+			if r.IsConst() {
+				nconst++
+			}
+			return r
+		}
+		return tb.Ite(t.args[0], rec(t.args[1]), rec(t.args[2]))
+	}
+	r := rec(a)
+	if nconst*2 >= n {
+		return r
+	}
+	return nil
+}
+
 func (tb *TB) mapCTree(t *Term, f func(*Term) *Term) *Term {
 	if t.op == OpConst {
 		return f(t)
@@ -443,6 +547,12 @@ func (tb *TB) liftBin(a, b *Term, f func(x, y *Term) *Term) *Term {
 	}
 	if b.op == OpIte && a.op == OpConst && tb.isCTree(b) {
 		return tb.mapCTree(b, func(y *Term) *Term { return f(a, y) })
+	}
+	if b.op == OpConst && tb.isMTree(a) {
+		return tb.mapTree(a, func(x *Term) *Term { return f(x, b) })
+	}
+	if a.op == OpConst && tb.isMTree(b) {
+		return tb.mapTree(b, func(y *Term) *Term { return f(a, y) })
 	}
 	return nil
 }
@@ -486,9 +596,26 @@ func (tb *TB) Eq(a, b *Term) *Term {
 		if a.IsConst() && b.op == OpConcat {
 			return tb.eqConcatConst(b, a)
 		}
+		// x+k1 == x+k2
+		ab, ak := addParts(a)
+		bb, bk := addParts(b)
+		if ab != nil && ab == bb {
+			return tb.Bool(ak == bk)
+		}
 	}
 	if a.id > b.id {
 		a, b = b, a
+	}
+	if ex, ok := tb.lookup(OpEq, a, b); ok {
+		return ex
+	}
+	if a.sort.K == SBV {
+		if r := tb.specLift(a, func(x *Term) *Term { return tb.Eq(x, b) }); r != nil {
+			return r
+		}
+		if r := tb.specLift(b, func(y *Term) *Term { return tb.Eq(a, y) }); r != nil {
+			return r
+		}
 	}
 	return tb.mk(&Term{op: OpEq, sort: BoolSort, args: []*Term{a, b}})
 }
@@ -703,8 +830,8 @@ func (tb *TB) Extract(x *Term, hi, lo int) *Term {
 		}
 		return tb.fromSegs(out)
 	case OpIte:
-		if tb.isCTree(x) {
-			return tb.mapCTree(x, func(k *Term) *Term { return tb.Extract(k, hi, lo) })
+		if tb.isCTree(x) || tb.isMTree(x) {
+			return tb.mapTree(x, func(k *Term) *Term { return tb.Extract(k, hi, lo) })
 		}
 	case OpSignExt:
 		if hi < x.args[0].sort.W {
@@ -748,8 +875,8 @@ func (tb *TB) ZeroExt(x *Term, w int) *Term {
 	if w < x.sort.W {
 		return tb.Extract(x, w-1, 0)
 	}
-	if x.op == OpIte && tb.isCTree(x) {
-		return tb.mapCTree(x, func(k *Term) *Term { return tb.ZeroExt(k, w) })
+	if x.op == OpIte && (tb.isCTree(x) || tb.isMTree(x)) {
+		return tb.mapTree(x, func(k *Term) *Term { return tb.ZeroExt(k, w) })
 	}
 	return tb.Concat(tb.BV(0, w-x.sort.W), x)
 }
@@ -764,8 +891,8 @@ func (tb *TB) SignExt(x *Term, w int) *Term {
 	if x.IsConst() {
 		return tb.BV(uint64(sext(x.val, x.sort.W)), w)
 	}
-	if x.op == OpIte && tb.isCTree(x) {
-		return tb.mapCTree(x, func(k *Term) *Term { return tb.SignExt(k, w) })
+	if x.op == OpIte && (tb.isCTree(x) || tb.isMTree(x)) {
+		return tb.mapTree(x, func(k *Term) *Term { return tb.SignExt(k, w) })
 	}
 	// known-zero top bit => zero extension
 	if x.op == OpConcat && x.args[0].IsConst() && x.args[0].val>>(uint(x.args[0].sort.W)-1) == 0 {
@@ -994,6 +1121,15 @@ func (tb *TB) Sub(a, b *Term) *Term {
 	if r := tb.liftBin(a, b, tb.Sub); r != nil {
 		return r
 	}
+	if ex, ok := tb.lookup(OpBvSub, a, b); ok {
+		return ex
+	}
+	if r := tb.specLift(a, func(x *Term) *Term { return tb.Sub(x, b) }); r != nil {
+		return r
+	}
+	if r := tb.specLift(b, func(y *Term) *Term { return tb.Sub(a, y) }); r != nil {
+		return r
+	}
 	return tb.mk(&Term{op: OpBvSub, sort: a.sort, args: []*Term{a, b}})
 }
 
@@ -1060,6 +1196,20 @@ func (tb *TB) divop(op Op, a, b *Term) *Term {
 			return tb.BV(uint64(x%y), w)
 		}
 	}
+	// (x * k) / k = x and (x * k) % k = 0 when x is a narrow value extended to
+	// this width, so that the product cannot overflow
+	if b.IsConst() && b.val != 0 && a.op == OpBvMul && a.args[1] == b && tb.narrow(a.args[0]) && b.val < 1<<20 {
+		switch op {
+		case OpBvSDiv, OpBvUDiv:
+			if op == OpBvSDiv || a.args[0].op != OpSignExt {
+				return a.args[0]
+			}
+		case OpBvSRem, OpBvURem:
+			if op == OpBvSRem || a.args[0].op != OpSignExt {
+				return tb.BV(0, w)
+			}
+		}
+	}
 	if b.IsConst() && b.val != 0 && b.val&(b.val-1) == 0 {
 		k := bits.TrailingZeros64(b.val)
 		switch op {
@@ -1073,6 +1223,17 @@ func (tb *TB) divop(op Op, a, b *Term) *Term {
 		return r
 	}
 	return tb.mk(&Term{op: op, sort: a.sort, args: []*Term{a, b}})
+}
+
+// narrow reports whether a 64-bit term is a sign/zero extension of at most 32 bits.
+func (tb *TB) narrow(x *Term) bool {
+	if x.sort.W != 64 {
+		return false
+	}
+	if x.op == OpSignExt && x.args[0].sort.W <= 32 {
+		return true
+	}
+	return tb.leadingZeroBits(x) >= 32
 }
 
 func (tb *TB) UDiv(a, b *Term) *Term { return tb.divop(OpBvUDiv, a, b) }
@@ -1155,6 +1316,15 @@ func (tb *TB) AShr(a, b *Term) *Term {
 
 // leadingZeroBits returns how many top bits of t are known to be zero.
 func (tb *TB) leadingZeroBits(t *Term) int {
+	if t.lzb != 0 {
+		return int(t.lzb) - 1
+	}
+	r := tb.leadingZeroBits0(t)
+	t.lzb = int16(r + 1)
+	return r
+}
+
+func (tb *TB) leadingZeroBits0(t *Term) int {
 	switch t.op {
 	case OpConst:
 		if t.val == 0 {
@@ -1203,6 +1373,13 @@ func (tb *TB) cmp(op Op, a, b *Term) *Term {
 	}
 	if a == b {
 		return tb.Bool(op == OpBvUle || op == OpBvSle)
+	}
+	// canonical form: a <= b  ==  not (b < a)
+	if op == OpBvUle {
+		return tb.Not(tb.cmp(OpBvUlt, b, a))
+	}
+	if op == OpBvSle {
+		return tb.Not(tb.cmp(OpBvSlt, b, a))
 	}
 	if r := tb.liftBin(a, b, func(x, y *Term) *Term { return tb.cmp(op, x, y) }); r != nil {
 		return r
@@ -1525,6 +1702,20 @@ type ubounds struct{ lo, hi uint64 }
 // boundsOf returns conservative unsigned bounds of a BV term whose value is
 // known to stay below 2^63 (ok=false when nothing useful is known).
 func (tb *TB) boundsOf(t *Term) (ubounds, bool) {
+	if t.bst != 0 {
+		return t.bnd, t.bst == 1
+	}
+	b, ok := tb.boundsOf0(t)
+	t.bnd = b
+	if ok {
+		t.bst = 1
+	} else {
+		t.bst = 2
+	}
+	return b, ok
+}
+
+func (tb *TB) boundsOf0(t *Term) (ubounds, bool) {
 	const lim = uint64(1) << 62
 	switch t.op {
 	case OpConst:
